@@ -2,6 +2,7 @@
 use crate::hubcore::*;
 use crate::unbondlc::UnbondLc;
 use crate::fee::Fee;
+use crate::reward::Reward;
 use crate::enumer::{C12Enum, C17Enum};
 use crate::runner::*;
 use crate::chain::*;
@@ -17,6 +18,12 @@ fn envelope() -> Vec<String> {
 
 fn ulc(label: &str, f: impl FnOnce(&mut UnbondLc)) -> UnbondLc {
     let mut h = UnbondLc::base(label);
+    f(&mut h);
+    h
+}
+
+fn rw(label: &str, f: impl FnOnce(&mut Reward)) -> Reward {
+    let mut h = Reward::base(label);
     f(&mut h);
     h
 }
@@ -123,6 +130,40 @@ pub fn build(id: &str, tier: Tier) -> Option<Check> {
             rule: "every validator list of length 0..=L with delegations in 0..=V in every order (L=4,V=5 quick; L=5,V=7 thorough), every amount 0..=sum+6, plus the same box scaled by 1e6+3, 1e12+7 and ~1e18/(L*V) with +-1 perturbations of delegations and amounts, through the public calculate_delegations / calculate_undelegations; each call under a 2 s watchdog; non-trivial = accepted plan with amount > 0".into(),
             assumptions: vec!["the two planning functions are pure; totals stay below 2^127 (u128-safe range of the property)".into()],
             essential: vec!["c12_empty_list", "c12_lists_with_zero", "c12_unsorted_lists", "c12_undelegate_rejected"],
+        },
+        "C14" => Check {
+            id: "C14",
+            jobs: vec![
+                bfs(rw("c14-main", |h| { h.arm.c14 = true; h.seeds = vec!["holders", "empty"]; if !q { h.users = vec![ALICE, BOB, CAROL]; } }), tier.pick(4, 5), secs),
+                bfs(rw("c14-big", |h| { h.arm.c14 = true; h.seeds = vec!["big"]; h.rewards = vec![1, 1_000_000_000_000_000_000]; h.bond_amounts = vec![10_000_000_000_000_000]; h.with_hub_ops = false; }), tier.pick(4, 5), secs),
+                bfs(rw("c14-allowance", |h| { h.arm.c14 = true; h.seeds = vec!["allowances"]; h.with_allowance = true; h.rewards = vec![19]; }), tier.pick(3, 4), secs),
+            ],
+            rule: "every sequence of <= D bSei operations (mint via bond, transfer incl. to self, send-to-hub unbond/convert, allowance-based transfer/send/burn), reward deliveries {7,1000} (and {1,1e18} against a 1e18 holder) and claims (to self / to another recipient) by 2-3 holders plus a spender, including deliveries while nobody holds bSei; solvency and completeness are recomputed in 1e-18 fixed point from the Holders and State queries in every distinct state, every claim is compared with the exact whole/fraction split; non-trivial = a state with accrued rewards or a claim".into(),
+            assumptions: envelope(),
+            essential: vec!["c14_states_with_accrued_rewards", "c14_claims_checked", "c14_claim_paid", "c14_claim_of_nothing"],
+        },
+        "C15" => Check {
+            id: "C15",
+            jobs: vec![
+                bfs(rw("c15-ledger", |h| { h.arm.c15 = true; h.seeds = vec!["holders", "empty"]; if !q { h.users = vec![ALICE, BOB, CAROL]; } }), tier.pick(4, 5), secs),
+                bfs(rw("c15-allowance", |h| { h.arm.c15 = true; h.seeds = vec!["allowances"]; h.with_allowance = true; h.with_sink = true; h.rewards = vec![19]; }), tier.pick(3, 4), secs),
+                bfs(rw("c15-diamonds", |h| { h.arm.diamonds = true; h.seeds = vec!["allowances"]; h.with_allowance = true; h.rewards = vec![19]; }), tier.pick(2, 3), secs),
+                bfs(rw("c15-split-2-1", |h| { h.seeds = vec!["split"]; h.split = Some((2, 1)); h.rewards = vec![7, 1_000_000_000_000_000_000]; }), tier.pick(5, 7), secs),
+                bfs(rw("c15-split-big", |h| { h.seeds = vec!["split"]; h.split = Some((999_999_999_999_999_999, 1)); h.rewards = vec![1, 1000]; }), tier.pick(5, 6), secs),
+            ],
+            rule: "(i) reference ledger: at each delivery every holder's reference accrual grows by balance x distributed / total (floor and ceiling bounds in 1e-18 units) and accrued + claimed must stay within it; (ii) frame: every non-delivery transition leaves every holder's exact accrued reward unchanged (own claim excepted); (iii) commutation diamonds: in every state up to depth D every pair of enabled operations of different actors is run in both orders and the reward contract's storage must be byte-identical; (iv) product exploration: a world where alice holds X in one account and a world where the same X is split over two accounts run in lock-step under identical operations of everyone else; accrual must be equal. non-trivial = transitions where one of these compared something".into(),
+            assumptions: envelope(),
+            essential: vec!["c15_frame_checked", "c15_reference_ledger_checked", "c15_diamond_pairs_compared", "c15_product_steps"],
+        },
+        "C16" => Check {
+            id: "C16",
+            jobs: vec![
+                bfs(rw("c16-all-entry-points", |h| { h.arm.c16 = true; h.seeds = vec!["allowances", "empty"]; h.with_allowance = true; h.with_sink = true; h.rewards = vec![19]; if !q { h.users = vec![ALICE, BOB, CAROL]; } }), tier.pick(3, 4), secs),
+                bfs(rw("c16-hub-paths", |h| { h.arm.c16 = true; h.seeds = vec!["holders"]; h.bond_amounts = vec![3, 1_000_000_000_000_000_000]; }), tier.pick(4, 6), secs),
+            ],
+            rule: "every sequence of <= D bSei entry points (mint via bond, burn via hub unbond/convert, transfer incl. to self, send to the hub with both hooks, send to a non-hub contract, increase/decrease allowance, TransferFrom incl. recipient = owner and amount 0, SendFrom, BurnFrom) by holders, a spender and the hub, starting from a token without initial balances; in every distinct state the reward contract's Holders list is compared with the token's AllAccounts/Balance for every address and the totals are compared; non-trivial = every distinct state".into(),
+            assumptions: envelope(),
+            essential: vec!["c16_mirror_states", "c16_states_with_two_or_more_holders"],
         },
         "C17" => {
             let bal: Vec<u128> = if q { vec![0, 1, 2, 3, 10, 999, 1_000_003, 1_000_000_000_000_000_000] } else { vec![0, 1, 2, 3, 7, 10, 19, 20, 999, 1_000_003, 1_000_000_000_007, 1_000_000_000_000_000_000] };
